@@ -54,8 +54,11 @@ func (g *Generator) FuncToString(f *model.Function) string {
 		sb.WriteString(f.Src.FullType())
 	}
 
-	for _, args := range f.AdditionalArgs {
-		sb.WriteString(", ")
+	for i, args := range f.AdditionalArgs {
+		if 0 < i || f.Receiver == "" || f.DstVarStyle == model.DstVarArg {
+			// Not the first parameter.
+			sb.WriteString(", ")
+		}
 		sb.WriteString(args.Name)
 		sb.WriteString(" ")
 		sb.WriteString(args.FullType())
